@@ -1126,6 +1126,8 @@ theorem handleDoubleSign_cases {s s' : State} {a : Addr} {ih et pw : Int}
   rename_i si hsi
   split at hh
   · simp at hh
+  split at hh
+  · simp at hh
   simp only [] at hh
   split at hh
   · simp at hh
@@ -1902,7 +1904,7 @@ theorem handle_unstake_spec {s s' : State} (h : Acct s) {a : Addr}
   · simp at hh
   rename_i v hv
   simp only [ite_none_left_eq_some, Option.some.injEq] at hh
-  obtain ⟨hst, _, rfl⟩ := hh
+  obtain ⟨hst, _, _, rfl⟩ := hh
   have hst : v.status = 2 := by simpa using hst
   have hfr : SlashFrame s (enqueue (setVal (delStaked s a v) a { v with status := 1, unstake := s.time + s.p.unstakingTime }) a
       (s.time + s.p.unstakingTime)) :=
